@@ -1,15 +1,69 @@
-import DryocVerif.Bytes
+import DryocVerif.Model.Protected
+import DryocVerif.Proofs.ProtectedRel
+/-
+C15 — the page-aligned allocator never hands back memory that still holds data: every release
+event `(size, nonzero)` observed by the harness has `nonzero = 0`, for every token history, every
+start state and every lock oracle.  The proof only uses that `deallocate` wipes `layout.size()`
+bytes before it frees (`c.wipe = true`); it never looks at the growth policy of `Vec`
+(`growCap` is not unfolded anywhere), at the page size, or at who called `deallocate`
+(`Vec` reallocation, shrink + drop, `Protected::drop`, error and panic paths).
+The counter-model (`c.wipe = false`, the tree before the repair) shows the defect.
+-/
 namespace DryocVerif.Properties.C15
-open DryocVerif
+open DryocVerif DryocVerif.Model.Protected DryocVerif.Proofs.Protected
 
-/-- page rounding used by the allocator: `size + (P - size % P)` is a multiple of `P` strictly above `size` -/
-theorem pageRound_spec (size P : Nat) (hP : 0 < P) :
-    (size + (P - size % P)) % P = 0 ∧ size < size + (P - size % P) ∧ size + (P - size % P) ≤ size + P := by
-  have h := Nat.mod_lt size hP
-  refine ⟨?_, by omega, by omega⟩
-  have e : size + (P - size % P) = P * (size / P) + P := by
-    have := Nat.div_add_mod size P
-    omega
-  rw [e, Nat.mul_add_mod_self_left, Nat.mod_self]
+/-- the block that goes back to the system allocator has its first `cap` bytes zero -/
+theorem dealloc_wipes (c : Cfg) (hw : c.wipe = true) (m : Mach) (v : PVec) :
+    (dealloc c m v).rel = m.rel ++ [(v.cap, 0)] := by
+  rw [dealloc_rel]; simp only [hw, if_true, nonzero_wipe]
+
+/-- one token: all releases are clean -/
+theorem release_zeroed_step (c : Cfg) (hw : c.wipe = true) (s : State) (t : Tok) :
+    ∀ e ∈ (step c s t).2.m.rel, e.2 = 0 :=
+  relz_step hw s t
+
+/-- `release_zeroed`: for every token sequence (from any state), every release event of every
+token and of the final teardown has `nonzero = 0`. -/
+theorem release_zeroed (c : Cfg) (hw : c.wipe = true) (s : State) (toks : List Tok) :
+    (∀ r ∈ run c s toks, ∀ e ∈ r.2.m.rel, e.2 = 0) ∧
+    (∀ e ∈ (finish c (runState c s toks)).m.rel, e.2 = 0) := by
+  refine ⟨?_, relz_finish hw _⟩
+  induction toks generalizing s with
+  | nil => intro r hr; simp [run] at hr
+  | cons t ts ih =>
+    intro r hr
+    simp only [run, List.mem_cons] at hr
+    rcases hr with rfl | hr
+    · exact relz_step hw s t
+    · exact ih _ r hr
+
+/-! ### counter-model: a `deallocate` that does not wipe -/
+
+/-- without the wipe the release event reports whatever the block still holds -/
+theorem nowipe_release (c : Cfg) (hw : c.wipe = false) (m : Mach) (v : PVec) :
+    (dealloc c m v).rel = m.rel ++ [(v.cap, nonzero (v.buf.take v.cap))] := by
+  rw [dealloc_rel]; simp [hw]
+
+def cNoWipe : Cfg := { P := 4096, isArr := false, n := 8, wipe := false }
+def toksGrow : List Tok := [⟨.new, 0⟩, ⟨.fill 0xa5, 0⟩, ⟨.resize 9, 0⟩]
+
+/-- the repaired defect: `new; fill:a5; resize:bigger` reallocates and releases the old 8-byte
+block with all 8 bytes still in place -/
+theorem nowipe_leaks :
+    (runState cNoWipe (State.init fun _ => true) toksGrow).m.rel = [(8, 8)] := by decide
+
+/-- the same history on the repaired model (non-vacuity of `release_zeroed`: there IS a release) -/
+example : (runState { cNoWipe with wipe := true } (State.init fun _ => true) toksGrow).m.rel = [(8, 0)] := by
+  decide
+
+/-- shrinking keeps the allocation; the spare capacity still holds the old bytes and is wiped
+only by `deallocate` (here: 20 bytes `a5`, shrink to 4, drop — the 16 stale bytes survive
+`zeroize`, none survive `deallocate`) -/
+example :
+    (runState { cNoWipe with n := 20 } (State.init fun _ => true)
+      [⟨.new, 0⟩, ⟨.fill 0xa5, 0⟩, ⟨.resize 4, 0⟩, ⟨.drop, 0⟩]).m.rel = [(20, 16)] ∧
+    (runState { cNoWipe with n := 20, wipe := true } (State.init fun _ => true)
+      [⟨.new, 0⟩, ⟨.fill 0xa5, 0⟩, ⟨.resize 4, 0⟩, ⟨.drop, 0⟩]).m.rel = [(20, 0)] := by
+  decide
 
 end DryocVerif.Properties.C15
